@@ -5,7 +5,7 @@ From Boltons Require Import Lib.Prelude Lib.C07_Str Spec.C07_Spec Gen.C07_Gen Mo
      Proofs.C07_Text Proofs.C07_RfcExamples Gen.C07_Src Proofs.C07_SrcEq Check.C07_Check
      Proofs.C07_Refine Proofs.C07_RoundTrip Proofs.C07_Unrooted Proofs.C07_Case
      Proofs.C07_RefineUnrooted Proofs.C07_CaseAuth Proofs.C07_CaseRefine Proofs.C07_EmptyAuth
-     Proofs.C07_CaseRoundTrip.
+     Proofs.C07_CaseRoundTrip Proofs.C07_EmptyAuthRefine Proofs.C07_EmptyAuthText.
 Open Scope N_scope.
 Open Scope list_scope.
 
@@ -217,6 +217,13 @@ Theorem C07_model_satisfies_spec_mixed_case : forall b d1 d2 unrooted f1 f2 bt,
 Proof. exact mixed_case_observation_satisfies_spec. Qed.
 Print Assumptions C07_model_satisfies_spec_mixed_case.
 
+(* ... and for a "file:///a/b"-style base (empty authority, non-empty path) *)
+Theorem C07_model_satisfies_spec_empty_authority : forall b d1 d2 unrooted f1 f2 bt,
+  wf_base_ea b -> wf_ref d1 \/ wf_base d1 -> wf_ref d2 \/ wf_base d2 ->
+  c07_holds (mkCase bt unrooted (to_text d1) f1 (to_text d2) f2 (record_obs b d1 d2)) = true.
+Proof. exact ea_observation_satisfies_spec. Qed.
+Print Assumptions C07_model_satisfies_spec_empty_authority.
+
 (* URL(text) gives back the object that was printed (model of URL.__init__ /
    parse_url / parse_qsl on the plain-text domain), so the objects quantified
    over above are exactly what URL() builds from their texts *)
@@ -265,6 +272,17 @@ Print Assumptions C07_refinement_mixed_case.
 Example C07_refinement_mixed_case_ex :
   wf_base_mc_text ex_mixed /\ u_host ex_mixed = codes "Example.COM".
 Proof. split; [exact ex_mixed_text_ok | vm_compute; reflexivity]. Qed.
+
+(* ... and for a "file:///a/b"-style base text *)
+Theorem C07_refinement_empty_authority : forall b d1 d2 f1 f2 o0,
+  wf_base_ea_text b -> dest_text_ok d1 -> dest_text_ok d2 ->
+  exists o, c07_model (mkCase (to_text b) false (to_text d1) f1 (to_text d2) f2 o0) = Some o /\
+            c07_holds (mkCase (to_text b) false (to_text d1) f1 (to_text d2) f2 o) = true.
+Proof. exact model_on_texts_empty_authority. Qed.
+Print Assumptions C07_refinement_empty_authority.
+Example C07_refinement_empty_authority_ex :
+  wf_base_ea_text ex_file /\ to_text ex_file = codes "file:///a/b/../c?q#f".
+Proof. split; [exact ex_file_text_ok | vm_compute; reflexivity]. Qed.
 
 Example C07_refinement_ex :
   wf_base_text ex_base /\ dest_text_ok ex_ref1 /\ dest_text_ok ex_ref2 /\ dest_text_ok ex_abs /\
